@@ -298,6 +298,15 @@ fn float_selfcheck() -> Result<u64, String> {
     }
     for b in structured_patterns(F64, false) {
         f2i!(b, F64, f64, u8, 8, false; i8, 8, true; u32, 32, false; i32, 32, true; u64, 64, false; i64, 64, true; u128, 128, false; i128, 128, true);
+        for (tb, sg) in [(8u32, false), (8, true), (16, false), (24, true), (64, true), (128, false), (128, true), (96, false)] {
+            let slow = float_to_int(b, F64, TypeInfo { bits: tb, signed: sg });
+            let (neg, mag) = f64_to_int_fast(b, tb, sg);
+            let fast = if neg { BigRef::from_u128(mag).neg() } else { BigRef::from_u128(mag) };
+            n += 1;
+            if slow != fast {
+                return Err(format!("f64 fast path disagrees with the exact model at {:#x} -> {}{}: {} vs {}", b, if sg { "i" } else { "u" }, tb, fast, slow));
+            }
+        }
     }
     // integer -> float
     let mut vals: Vec<i128> = vec![0, 1, -1, i128::MAX, i128::MIN, i128::MAX - 1, i64::MAX as i128, i64::MIN as i128];
